@@ -26,6 +26,7 @@ import YashModel.Input.Logical
 import YashModel.Input.Compose
 import YashModel.Input.RedirInv
 import YashModel.Input.RedirCursor
+import YashModel.Input.RedirC09
 import YashModel.Expansion.ReadLemmas
 import YashModel.Generated.InputConsts
 namespace YashModel.Input
@@ -1076,7 +1077,7 @@ theorem undo_order_is_the_codes :
         (step (.cmd (.redir rs c) :: k) s).map (·.2.status) = some Generated.InputConsts.SYNTAX_ERROR) := by
   refine ⟨rfl, fun _ _ => rfl, ?_⟩
   intro rs c k s h
-  simp [step, h, Generated.InputConsts.SYNTAX_ERROR]
+  by_cases hx : redirErrorExits s c = true <;> simp [step, h, hx, Generated.InputConsts.SYNTAX_ERROR]
 
 
 /-- ★ **after any commands with any redirections, the shell's input descriptor and its offset are what
@@ -1104,6 +1105,53 @@ example :
         (.simple [[.lit 'r' false, .lit 'e' false, .lit 'a' false, .lit 'd' false], [.lit 'v' false]] none)])
       (initState true [112, 10] [])).1.vars = [("v", "b")] := by
   refine ⟨?_, ?_⟩ <;> decide
+
+
+
+/-! ### C18 ↔ C09: the two transcriptions of `RedirGuard` -/
+section C09
+open YashModel.Redir
+variable {W : Type}
+
+/-- ★ **the two models of `RedirGuard` cannot drift apart**: for the same list of redirections of
+    descriptor 0 (`Tracks`), from a table whose descriptor 0 refers to the description C18's state has
+    (`proj I t = stdinDesc s`; `WF`: C09's hypothesis), the C18 description of standard input is the
+    projection of the C09 table (1) while the command runs, (2) in every saved copy of the guard, in
+    order, and (3) after `undo_redirs` — where C09's `undo_restores` and C18's `redirs_undone_exactly`
+    both say: what it was before -/
+theorem c09_c18_agree (o : Oracle W) (I : Nat → SavedIn) (w : W) (t : FdTable) (rs : List Redir)
+    (rds : List Rd) (s : State) (h : Tracks o I w t rs rds) (hw : WF t)
+    (hp : proj I t = some (stdinDesc s)) :
+    proj I (performRedirs o w t rs).t = some (stdinDesc (performIn rds [] s).2.1)
+    ∧ (performIn rds [] s).1 = (performRedirs o w t rs).saved.map (savedDesc I (performRedirs o w t rs).t)
+    ∧ proj I (undoRedirs (performRedirs o w t rs).t (performRedirs o w t rs).saved)
+        = some (stdinDesc (undoIn (performIn rds [] s).1 (performIn rds [] s).2.1)) := by
+  obtain ⟨_, _, h3, h4⟩ := perform_projection o I w t rs rds s [] h hp
+  refine ⟨h3, by simpa using h4, ?_⟩
+  rw [undo_perform]
+  simp only [proj]
+  rw [(undo_restores o w t rs hw).2 0]
+  exact hp
+
+
+example : Tracks worldOracle exI (stdWorld false) stdTable
+    [⟨0, .hereDoc [97, 10]⟩, ⟨0, .hereDoc [98, 10]⟩] [.here ['a', '\n'], .here ['b', '\n']] := by
+  refine ⟨rfl, ⟨_, rfl⟩, ⟨[97, 10], by decide, by decide⟩, rfl, ⟨_, rfl⟩, ⟨[98, 10], by decide, by decide⟩, trivial⟩
+
+example : proj exI stdTable = some (stdinDesc (initState true [112, 10] [])) := by decide
+
+
+end C09
+
+
+/-- the reserved words of the model's grammar are the reserved words of yash-syntax, and the model's
+    clause delimiters are those of `Keyword::is_clause_delimiter` (both re-extracted on every run) -/
+theorem keywords_are_the_codes :
+    (∀ k ∈ Generated.InputConsts.KEYWORDS, keywords.contains k = true)
+    ∧ (∀ k ∈ keywords, Generated.InputConsts.KEYWORDS.contains k = true)
+    ∧ (∀ k ∈ Generated.InputConsts.KEYWORDS,
+        isClauseDelim (.word (k.toList.map fun c => Part.lit c false) []) = Generated.InputConsts.CLAUSE_DELIMS.contains k) := by
+  refine ⟨by decide, by decide, by decide⟩
 
 
 end YashModel.Input
